@@ -91,7 +91,8 @@ func VerifC08Floor() {
 	}
 	r := zzverif.U64("R")
 	zzverif.Assume(zzverif.And(r > 0, r <= w.dealt))
-	rg := vRanges[0]
+	// the whole prefix, a directory, or the interval that holds exactly one key ([k, k+0x00))
+	rg := [][2][]byte{vRanges[0], vRanges[2], {vNames[0], append(append([]byte(nil), vNames[0]...), 0)}}[zzverif.Choose("interval", 3)]
 	switch zzverif.Choose("read", 3) {
 	case 0:
 		resp, err := w.b.List(vCtx(), &proto.RangeRequest{Key: rg[0], End: rg[1], Revision: r})
